@@ -360,8 +360,12 @@ func check(c Case, o *vf.Obs) error {
 	// made of the fake guns' response times, which are sleeps: on a machine so busy that this process's own 2 ms
 	// sleeps are measurably late the responses are late as well, and the run gets five times the bound more.
 	var probe *vf.LoadProbe
-	if !c.Discard || c.Hiccup {
+	if !c.Discard {
 		probe = vf.StartLoadProbe()
+	}
+	var starve *starveProbe
+	if c.Hiccup {
+		starve = startStarveProbe()
 	}
 	t0 := time.Now()
 	var runErr error
@@ -374,8 +378,7 @@ func check(c Case, o *vf.Obs) error {
 		expired = true
 	}
 	if probe != nil {
-		late := probe.Stop()
-		if expired && late > 5*time.Millisecond && !c.Discard {
+		if late := probe.Stop(); expired && late > 5*time.Millisecond {
 			select {
 			case <-done:
 				expired = false
@@ -383,10 +386,13 @@ func check(c Case, o *vf.Obs) error {
 			case <-time.After(5 * bound):
 			}
 		}
+	}
+	if starve != nil {
 		// dense profiles: the run is made of tens of thousands of tokens each of which costs the recording doubles CPU
-		// time; on a machine so busy that this process's own 2 ms sleeps were measured > 5 ms late that work is late as
-		// well, and the run gets the bound once more (a run that skips overdue tokens at a cost stays far beyond that)
-		if expired && late > 5*time.Millisecond && c.Hiccup {
+		// time; on a machine so busy that more than one in ten of this process's own 2 ms sleeps was woken > 5 ms late
+		// that work is late as well, and the run gets the bound once more
+		share := starve.Stop()
+		if expired && share > 0.1 {
 			select {
 			case <-done:
 				expired = false
@@ -394,7 +400,7 @@ func check(c Case, o *vf.Obs) error {
 			case <-time.After(bound):
 			}
 		}
-		o.Note("own_2ms_sleep_late_by_ms", float64(late)/1e6)
+		o.Note("share_of_own_2ms_sleeps_woken_5ms_late", share)
 	}
 	if expired {
 		cancel()
